@@ -184,6 +184,22 @@ CHECKS = [
      "pointwise_cm/ConfusionMatrix metrics are outside the model's Query type and checked on the Python side only; one open "
      "finding (bootstrap_ci 'quantile' with an empty 1-d metric raises AxisError) is listed in known_findings.json.",
      "Lean 4 proof about a hand-written model + differential correspondence check on call histories", "DESIGN.md §5 C10"),
+ chk("C17",
+     "Lean theorems prove for ALL non-decreasing x whose duplicates carry equal y, all y and all targets: C17_solves (every "
+     "point from a crossing segment j lies in [x_j, x_{j+1}), x_j < x_{j+1}, and the interpolant of segment j equals the "
+     "target there), C17_in_range, C17_strictly_increasing, C17_fallback (no crossing: exactly one sample point with minimal "
+     "|y - t|, first index), C17_touch (cross or touch: every returned point is a genuine solution), C17_no_solution (neither: "
+     "all samples strictly on one side), C17_spec_complete (one point per segment that straddles the target or touches it at "
+     "its left end only), C17_length, C17_spec (all executable predicates hold on the model with eps = 0), C17_points / "
+     "linspace_spec / C17_metric (threshold_at_metric = the inversion on all sorted scores / linspace(min, max, k) / the given "
+     "points, ValueError branches, precondition holds automatically). Tied to /repo by running utils.invert_pl_function "
+     "(scalar/array targets, int/dyadic/float curves with duplicates, exact touches, plateaus) and Scores.threshold_at_metric "
+     "(name / alias / callable, points None / int / array, error branches), comparing number and position of solutions with "
+     "the model and evaluating the Lean predicates on the implementation's own output.",
+     BASE_NOTE + "np.nonzero/np.argmin/np.linspace/np.sort by documented meaning; that float rounding of (1-la)*x[j]+la*x[j+1] "
+     "does not move a point onto the next segment's start is observed, not proved; a user callable is one of the six rate "
+     "metrics wrapped in a lambda.",
+     "Lean 4 proof about a hand-written model + differential correspondence check", "DESIGN.md §5 C17"),
 ]
 
 ALL = [f"C{i:02d}" for i in range(1, 21)]
